@@ -94,8 +94,8 @@ where
     }
     let Q = fresh_point::<C>(&mut rng, "Q");
     let mut vals = SymVals::<C::ScalarField>::new(seed);
-    let gf: Vec<SymF<C::ScalarField>> = if case.g_factors == "unit" { vec![SymF::one(); n] } else { (0..n).map(|_| vals.fresh("gf")).collect() };
-    let hf: Vec<SymF<C::ScalarField>> = if case.h_factors == "unit" { vec![SymF::one(); n] } else { (0..n).map(|_| vals.fresh("hf")).collect() };
+    let gf: Vec<SymF<C::ScalarField>> = factor_vec(&case.g_factors, n, &mut vals, "gf");
+    let hf: Vec<SymF<C::ScalarField>> = factor_vec(&case.h_factors, n, &mut vals, "hf");
     let a = pat_vec(&case.a_pat, n, &mut vals, "a");
     let b = pat_vec(&case.b_pat, n, &mut vals, "b");
     // P = <a, G'> + <b, H'> + <a,b> Q   (computed by the harness)
@@ -235,6 +235,26 @@ where
     job
 }
 
+/// generator scaling factors by pattern: "unit" all ones, "sym" all fresh, "lo1" / "hi1" ones in the lower /
+/// upper half, "q1" ones in the first quarter, "alt1" ones at even positions, "r1cs" ones in the first quarter
+/// and ONE shared fresh value everywhere else (the shape the R1CS prover passes: [1; n1] ++ [u; n2 + pad])
+pub fn factor_vec<F: ark_ff::Field>(pat: &str, n: usize, vals: &mut dyn Vals<F>, kind: &str) -> Vec<F> {
+    let shared = if pat == "r1cs" { Some(vals.fresh(kind)) } else { None };
+    (0..n)
+        .map(|i| {
+            let one = match pat {
+                "unit" => true,
+                "lo1" => i < n / 2,
+                "hi1" => i >= n / 2,
+                "q1" | "r1cs" => i < (n / 4).max(1),
+                "alt1" => i % 2 == 0,
+                _ => false,
+            };
+            if one { F::one() } else if let Some(s) = shared { s } else { vals.fresh(kind) }
+        })
+        .collect()
+}
+
 pub fn c10_cases(thorough: bool) -> Vec<IppCase> {
     let mut v = vec![];
     let kmax_h = if thorough { 7 } else { 3 };
@@ -254,6 +274,11 @@ pub fn c10_cases(thorough: bool) -> Vec<IppCase> {
     v.push(IppCase { name: "honest_k3_a_every_fourth".into(), k: 3, g_factors: "sym".into(), h_factors: "unit".into(), a_pat: "s000".into(), b_pat: "s".into(), mode: "honest".into() });
     v.push(IppCase { name: "honest_k4_a_odd_positions_b_every_fourth".into(), k: 4, g_factors: "unit".into(), h_factors: "sym".into(), a_pat: "0s".into(), b_pat: "sss0".into(), mode: "honest".into() });
     v.push(IppCase { name: "honest_k3_unit_vector_b".into(), k: 3, g_factors: "sym".into(), h_factors: "sym".into(), a_pat: "s".into(), b_pat: "0000000s".into(), mode: "honest".into() });
+    // factor vectors that are one on part of the positions only
+    for (k, gp, hp) in [(2usize, "lo1", "sym"), (2, "hi1", "lo1"), (3, "q1", "hi1"), (3, "r1cs", "sym"), (2, "r1cs", "r1cs"), (3, "alt1", "q1"), (1, "lo1", "hi1"), (0, "sym", "unit"), (0, "unit", "sym")] {
+        v.push(IppCase { name: format!("honest_k{}_factors_{}_{}", k, gp, hp), k, g_factors: gp.into(), h_factors: hp.into(), a_pat: "s".into(), b_pat: "s".into(), mode: "honest".into() });
+    }
+    v.push(IppCase { name: "adversarial_k2_factors_lo1_hi1".into(), k: 2, g_factors: "lo1".into(), h_factors: "hi1".into(), a_pat: "s".into(), b_pat: "s".into(), mode: "adversarial".into() });
     v.push(IppCase { name: "degenerate_k2_L_identity".into(), k: 2, g_factors: "sym".into(), h_factors: "sym".into(), a_pat: "00ss".into(), b_pat: "ss00".into(), mode: "degenerate".into() });
     v.push(IppCase { name: "degenerate_k1_R_identity".into(), k: 1, g_factors: "sym".into(), h_factors: "sym".into(), a_pat: "s0".into(), b_pat: "0s".into(), mode: "degenerate".into() });
     if thorough {
